@@ -1851,8 +1851,8 @@ rci_t mzd_first_zero_row(mzd_t const *A) {
   wi_t const end      = A->width - 1;
   for (rci_t i = A->nrows - 1; i >= 0; --i) {
     word const *row = mzd_row_const(A, i);
-    word tmp = row[0];
-    for (wi_t j = 1; j < end; ++j) tmp |= row[j];
+    word tmp = 0;
+    for (wi_t j = 0; j < end; ++j) tmp |= row[j];
     tmp |= row[end] & mask_end;
     if (tmp) {
       __M4RI_DD_INT(i + 1);
